@@ -119,6 +119,30 @@ func Make(shape string, seed int64, n int) []byte {
 			copy(d[pp+2:], a)
 			b = append(b, d...)
 			filler()
+		case "elfarm":
+			// a minimal ELF64 / AArch64 image with one PROGBITS section of BL and NOP instructions starting at file offset v
+			// (v not a multiple of 4: an unusual but legal layout)
+			if n < v+256 {
+				b = b[:0]
+				break
+			}
+			d := make([]byte, n)
+			copy(d, []byte{0x7F, 'E', 'L', 'F', 2, 1, 1, 0})
+			binary.LittleEndian.PutUint16(d[18:], 0xB7)
+			binary.LittleEndian.PutUint64(d[0x28:], 0x40)
+			binary.LittleEndian.PutUint16(d[0x3A:], 0x40)
+			binary.LittleEndian.PutUint16(d[0x3C:], 1)
+			binary.LittleEndian.PutUint32(d[0x40+4:], 1)
+			binary.LittleEndian.PutUint64(d[0x40+0x18:], uint64(v))
+			binary.LittleEndian.PutUint64(d[0x40+0x20:], uint64(n-v-64))
+			for i := v; i+4 <= n-64; i += 4 {
+				instr := uint32(0xD503201F)
+				if r.Intn(4) == 0 {
+					instr = 0x94000000 | uint32(r.Intn(200))
+				}
+				binary.LittleEndian.PutUint32(d[i:], instr)
+			}
+			b = append(b, d...)
 		case "taildmg":
 			// valid multi-byte text whose v-th byte from the end is the lead byte of a 3-byte character followed by a byte that is
 			// not a continuation byte (the last few bytes of a block are where a cut character may legitimately sit)
